@@ -14,7 +14,7 @@ for s in $(seq 1 $n); do
       [ -s /tmp/rseeds/$name.log ] && continue
       chk=$(python3 -c "import json;m=json.load(open('$d/meta.json'));c=m.get('caught_by_quick') or [];print(c[0] if c else '')")
       if [ -z "$chk" ]; then echo "NOT-CLAIMED (recorded as not detected)" > /tmp/rseeds/$name.log; continue; fi
-      SB_NO_SUITE=1 /verif/tools/sb.sh s$s $d/patch.diff $chk > /tmp/rseeds/$name.log.tmp 2>&1; mv /tmp/rseeds/$name.log.tmp /tmp/rseeds/$name.log
+      SB_NO_SUITE=1 bash /tmp/sb_private.sh s$s $d/patch.diff $chk > /tmp/rseeds/$name.log.tmp 2>&1; mv /tmp/rseeds/$name.log.tmp /tmp/rseeds/$name.log
     done < /tmp/rseeds/list.txt
   ) &
 done
